@@ -285,6 +285,9 @@ def discharge(ctx, f, an, site):
                 return ("guard", "Header::decode(p) == Ok(h) guarantees p.remaining() >= h.payload_length, and p is untouched in between")
         return None
     if name in ("copy_from_slice", "clone_from_slice"):
+        if len(args) < 2:
+            # `Bytes::copy_from_slice(data)` is a constructor, it cannot panic
+            return ("const", "constructor form of copy_from_slice (allocates a copy)")
         dl = known_len(ctx, f, an, args[0], bb)
         sl = known_len(ctx, f, an, args[1], bb)
         if dl is None:
